@@ -173,6 +173,49 @@ def run(ctx):
                 c.update({"matcher": "naive", "mmetric": "IOU", "mthr": 0.3})
             cases.append((c, p, r))
     grouped_cases(ctx)
+    # k copies of one (reference, prediction) instance pair: >= 3 true positives with identical non-dyadic scores (std exactly ~0)
+    for _ in range(ctx.scale(12, 120)):
+        k = rng.randint(3, 7)
+        bh, bw = rng.randint(2, 4), rng.randint(3, 6)
+        cut = rng.randint(1, bw - 1)
+        ref = np.zeros((bh + 2, k * (bw + 2) + 1), np.uint8); pred = np.zeros_like(ref)
+        for i in range(k):
+            x0 = 1 + i * (bw + 2)
+            ref[1:1 + bh, x0:x0 + bw] = i + 1
+            pred[1:1 + bh, x0:x0 + cut] = i + 1
+        it = rng.choice(["matched", "unmatched"])
+        c = {"input": it, "imetrics": ["DSC", "IOU", "ASSD", "RVD"], "gmetrics": []}
+        if it == "unmatched":
+            c.update({"matcher": "naive", "mmetric": "IOU", "mthr": 0.05})
+        cases.append((c, pred, ref))
+    # the decision metric is looked up among instance metrics whose NAMES contain each other (DSC / clDSC), in either order:
+    # a thick bar predicted by its centre line has Dice < 0.5 but clDice = 1 (and a shifted copy the other way round)
+    for _ in range(ctx.scale(10, 100)):
+        ref = np.zeros((9, 26), np.uint8); pred = np.zeros((9, 26), np.uint8)
+        w = rng.randint(8, 11)
+        ref[1:6, 1:1 + w] = 1; pred[3, 1:1 + w] = 1                       # centre line of a 5-voxel thick bar: Dice 1/3, clDice 1
+        ref[1:4, 14:14 + w] = 2; pred[2:5, 14 + 1:14 + w] = 2             # shifted thick bar: Dice high, clDice lower
+        ims = rng.choice([["clDSC", "DSC"], ["DSC", "clDSC"], ["clDSC", "IOU", "DSC"]])
+        dm = rng.choice(["DSC", "clDSC"])
+        c = {"input": "matched", "imetrics": ims, "gmetrics": [], "dmetric": dm, "dthr": rng.choice([0.5, 0.6, 0.9])}
+        if rng.random() < 0.5:
+            c.update({"input": "unmatched", "matcher": "naive", "mmetric": "IOU", "mthr": 0.1})
+        cases.append((c, pred, ref))
+    # clDice as an instance metric (2-D / 3-D only), low matching thresholds: skeletons that miss each other give undefined scores
+    for _ in range(ctx.scale(25, 250)):
+        p, r = impl.rand_pair(rng, max_side=7, max_inst=3, dims=(2, 3), dtype="uint8")
+        it = rng.choice(["matched", "unmatched"])
+        c = {"input": it, "imetrics": rng.choice([["clDSC", "IOU"], ["DSC", "clDSC"], ["clDSC"]]), "gmetrics": []}
+        if it == "unmatched":
+            c.update({"matcher": rng.choice(["naive", "merge"]), "mmetric": "IOU", "mthr": rng.choice([0.05, 0.1, 0.3])})
+        else:
+            # matched input with thin, barely overlapping shapes
+            r = np.zeros((7, 9), np.uint8); p = np.zeros((7, 9), np.uint8)
+            r[1:6, 1:4] = 1; p[1:6, 3:7] = 1
+            r[0:2, 6:9] = 2; p[1:3, 5:8] = 2
+            if rng.random() < 0.5:
+                p, r = p.T.copy(), r.T.copy()
+        cases.append((c, p, r))
     for _ in range(ctx.scale(200, 2500)):
         it = rng.choice(["matched", "unmatched", "unmatched", "semantic"])
         p, r = impl.rand_pair(rng, max_side=6, max_inst=4)
